@@ -1,6 +1,7 @@
 package symex
 
 import (
+	"fmt"
 	"go/types"
 	"reflect"
 	"strings"
@@ -54,8 +55,21 @@ func (in *Interp) envModel() map[string]value {
 	return m
 }
 
+// tagOf: the name part of the field's mapstructure tag ("name,omitempty" -> "name").
 func tagOf(st *types.Struct, i int) string {
-	return reflect.StructTag(st.Tag(i)).Get("mapstructure")
+	name, _, _ := strings.Cut(reflect.StructTag(st.Tag(i)).Get("mapstructure"), ",")
+	return name
+}
+
+// tagHas reports an option of the field's mapstructure tag (omitempty, squash, remain).
+func tagHas(st *types.Struct, i int, opt string) bool {
+	_, opts, _ := strings.Cut(reflect.StructTag(st.Tag(i)).Get("mapstructure"), ",")
+	for _, o := range strings.Split(opts, ",") {
+		if o == opt {
+			return true
+		}
+	}
+	return false
 }
 
 // flattenDefault registers value v (of static type t) under key: structs and maps recurse.
@@ -108,6 +122,18 @@ func (in *Interp) structToMap(t types.Type, v value, into *smap) {
 			tag = f.Name()
 		}
 		ft, fv := f.Type(), sv[i]
+		if tagHas(st, i, "squash") || tagHas(st, i, "remain") {
+			panic(unsupported{"mapstructure tag option squash/remain on " + f.Name()})
+		}
+		if tag == "-" {
+			continue
+		}
+		// omitempty: a zero value is left out of the map (so viper never learns the key)
+		if tagHas(st, i, "omitempty") {
+			if _, isStruct := ft.Underlying().(*types.Struct); !isStruct && in.branch(in.equals(ft, fv, in.zero(ft))) {
+				continue
+			}
+		}
 		et := ft
 		if p, ok := ft.Underlying().(*types.Pointer); ok {
 			et = p.Elem()
@@ -366,6 +392,11 @@ func (P *Program) registerViper() {
 		delete(fr.in.extra, "viper")
 		delete(fr.in.extra, "env")
 		return nil
+	})
+	P.reg(VHCFG+".TempDir", func(fr *frame, args []value) value {
+		n, _ := fr.in.extra["vhcfg-tempdirs"].(int)
+		fr.in.extra["vhcfg-tempdirs"] = n + 1
+		return fmt.Sprintf("/vhdb-model/dir%d", n)
 	})
 	P.reg(VHCFG+".Setenv", func(fr *frame, args []value) value {
 		fr.in.envModel()[fr.in.goStr(args[0], "environment variable name")] = copyVal(args[1])
